@@ -605,6 +605,104 @@ func checkC15(w *World, r *Report) {
 		r.Check(bad == "", "R15.6", "getPfxName import scan", f.Pos(), "no loop-carried result: the first matching import decides", "variable "+bad+" is carried through the scan: a later import with the same prefix (merged from an included submodule) overrides the module's own import")
 	})
 
+	r.Rule("R15.10", "every condition handed down is kept and compiled: node.AddWhenChildren attaches all the `when` statements it is given, whatever their text — two statements with the same text may come from different modules and resolve their prefixes differently", 1)
+	r.guard("R15.10", func() {
+		f := w.SSAFunc(w.Method("parse", "node", "AddWhenChildren"))
+		if f == nil || len(f.Params) != 3 {
+			panic(undecided{"parse.node.AddWhenChildren"})
+		}
+		given := ssa.Value(f.Params[2])
+		children := w.Field("parse", "node", "children")
+		sym := NewSym(w)
+		why := "the statements given are not appended to the children"
+		for _, b := range f.Blocks {
+			for _, in := range b.Instrs {
+				st, ok := in.(*ssa.Store)
+				if !ok {
+					continue
+				}
+				fa, ok := st.Addr.(*ssa.FieldAddr)
+				if !ok || !isFieldAddrOf(fa, children) {
+					continue
+				}
+				app, ok := st.Val.(*ssa.Call)
+				if !ok {
+					continue
+				}
+				if bi, isB := app.Call.Value.(*ssa.Builtin); !isB || bi.Name() != "append" || len(app.Call.Args) != 2 {
+					continue
+				}
+				if app.Call.Args[1] == given {
+					// the whole list at once: reached whatever the statements are
+					if !pcSat(pcNotF(sym.PathCond(f.Blocks[0], b, nil))) {
+						why = ""
+					} else {
+						why = "the list is appended only under a condition"
+					}
+					continue
+				}
+				// one at a time: on every way round the loop over the list
+				if l, in := loopOf(f, b); in {
+					all := len(l.Latches) > 0
+					for _, lt := range l.Latches {
+						if !(b == lt || b.Dominates(lt)) {
+							all = false
+						}
+					}
+					if all {
+						why = ""
+					} else {
+						why = "some of the statements given are skipped (the append does not happen on every iteration)"
+					}
+				}
+			}
+		}
+		r.Check(why == "", "R15.10", "AddWhenChildren attaches every statement it is given", f.Pos(), "append(children, given...)", why+": a `when` inherited from a uses or augment in another module is dropped when the node already has one with the same text, so it is never compiled in its own prefix scope (an unknown prefix goes unreported, a different binding is lost)")
+	})
+
+	r.Rule("R15.11", "a module's own prefix bindings win over those of its submodules: Process(Sub)moduleIncludes add the import statements of an included submodule after everything the module has (AddChildren) — prefix lookup takes the first import that matches (R15.6), and RFC 6020 lets `include` stand before `import`", 2)
+	r.guard("R15.11", func() {
+		names, _ := nodeTypeNames(w)
+		for _, fn := range []string{"ProcessModuleIncludes", "ProcessSubmoduleIncludes"} {
+			f := w.SSAFunc(w.Method("compile", "Compiler", fn))
+			if f == nil {
+				panic(undecided{"Compiler." + fn})
+			}
+			n := 0
+			why := ""
+			for _, b := range f.Blocks {
+				for _, in := range b.Instrs {
+					src, ok := in.(*ssa.Call)
+					if !ok || !src.Call.IsInvoke() || nm(src.Call.Method) != "ChildrenByType" || len(src.Call.Args) != 1 {
+						continue
+					}
+					if k, isK := intConstOf(src.Call.Args[0]); !isK || names[k] != "import" {
+						continue
+					}
+					if src.Call.Value == ssa.Value(f.Params[1]) {
+						continue // the module's own imports
+					}
+					n++
+					for _, ref := range *src.Referrers() {
+						switch x := ref.(type) {
+						case *ssa.DebugRef:
+						case *ssa.Call:
+							if !(x.Call.IsInvoke() && nm(x.Call.Method) == "AddChildren" && x.Call.Value == ssa.Value(f.Params[1])) {
+								why = "the submodule's imports are handed to " + pcCalleeName(x.Common())
+							}
+						default:
+							why = "the submodule's imports are rearranged (`" + ref.String() + "`) before they are attached"
+						}
+					}
+				}
+			}
+			if n == 0 {
+				why = "no merging of the submodule's import statements found"
+			}
+			r.Check(why == "", "R15.11", fn+" appends the submodule's imports", f.Pos(), "m.AddChildren(submodule imports...)", why+": placed before the module's own import of the same prefix they shadow it, and the module's must/when/path expressions resolve through the submodule's binding")
+		}
+	})
+
 	r.Rule("R15.7", "what an expression compiles to depends only on its text and on the prefix map of the statement it is written in: the expression compilers keep no package-level state that is written during compilation (no memo of compiled programs keyed by text) — same analysis as R06.3", 3)
 	r.guard("R15.7", func() { c06GlobalsRule(w, r, "R15.7") })
 
